@@ -81,6 +81,16 @@ func rootCause(op *opDef, c Case, i int, fam string) string {
 			}
 		}
 	}
+	hasSame := false
+	for _, b := range c.Args {
+		hasSame = hasSame || b.Same
+	}
+	if (op.Name == "Mul" || op.Name == "MulVec") && hasSame && !a.Same && fam == famOverlapAccepted {
+		// the receiver is also an operand: the product is formed in a
+		// workspace and the remaining operand is checked against that
+		// workspace (MulVec) or not at all (Mul: `if restore == nil`).
+		return "mul-identity-skips-check-of-other-operand"
+	}
 	switch op.Name {
 	case "DivElemVec":
 		if a.Same && fam == famIdentityWrong {
